@@ -704,6 +704,8 @@ class Client:
         Returns:
           The value for the key, or default if the key wasn't found.
         """
+        # None means "no exptime" to _fetch_cmd, but gat cannot be sent without one
+        self._check_integer(expire, "expire")
         return self._fetch_cmd(
             b"gat", [key], False, key_prefix=self.key_prefix, expire=expire
         ).get(key, default)
@@ -766,6 +768,8 @@ class Client:
           A tuple of (value, cas)
           or (default, cas_defaults) if the key was not found.
         """
+        # None means "no exptime" to _fetch_cmd, but gats cannot be sent without one
+        self._check_integer(expire, "expire")
         defaults = (default, cas_default)
         return self._fetch_cmd(
             b"gats", [key], True, key_prefix=self.key_prefix, expire=expire
